@@ -12,6 +12,7 @@ __all__ = [
 
 import collections
 import logging
+from collections.abc import Set as AbstractSet
 from typing import Protocol
 
 import onnx_ir as ir
@@ -110,6 +111,29 @@ class NameFixPass(ir.passes.InPlacePass):
         value_counter: collections.Counter[str] = collections.Counter()
         node_counter: collections.Counter[str] = collections.Counter()
 
+        # Names present before the pass. Generated names must avoid all of them so that
+        # (1) a name that is already unique is never taken away from its owner, and
+        # (2) renaming an initializer never hits the key of another initializer.
+        reserved_value_names: set[str] = set()
+        reserved_node_names: set[str] = set()
+
+        def collect_graph_names(graph_like) -> None:
+            values = [*graph_like.inputs, *graph_like.outputs]
+            if isinstance(graph_like, ir.Graph):
+                values.extend(graph_like.initializers.values())
+            reserved_value_names.update(value.name for value in values if value.name)
+
+        for node in ir.traversal.RecursiveGraphIterator(
+            graph_like, enter_graph=collect_graph_names
+        ):
+            if node.name:
+                reserved_node_names.add(node.name)
+            reserved_value_names.update(
+                value.name
+                for value in (*node.inputs, *node.outputs)
+                if value is not None and value.name
+            )
+
         def enter_graph(graph_like) -> None:
             """Callback for entering a subgraph."""
             # Initialize new scopes with all names from the parent scope
@@ -121,14 +145,22 @@ class NameFixPass(ir.passes.InPlacePass):
             # Step 1: Fix graph input names first (they have precedence)
             for input_value in graph_like.inputs:
                 if self._process_value(
-                    input_value, scoped_used_value_names[-1], seen_values, value_counter
+                    input_value,
+                    scoped_used_value_names[-1],
+                    seen_values,
+                    value_counter,
+                    reserved_value_names,
                 ):
                     modified = True
 
             # Step 2: Fix graph output names (they have precedence)
             for output_value in graph_like.outputs:
                 if self._process_value(
-                    output_value, scoped_used_value_names[-1], seen_values, value_counter
+                    output_value,
+                    scoped_used_value_names[-1],
+                    seen_values,
+                    value_counter,
+                    reserved_value_names,
                 ):
                     modified = True
 
@@ -136,7 +168,11 @@ class NameFixPass(ir.passes.InPlacePass):
                 # For graphs, also fix initializers
                 for initializer in tuple(graph_like.initializers.values()):
                     if self._process_value(
-                        initializer, scoped_used_value_names[-1], seen_values, value_counter
+                        initializer,
+                        scoped_used_value_names[-1],
+                        seen_values,
+                        value_counter,
+                        reserved_value_names,
                     ):
                         modified = True
 
@@ -152,11 +188,13 @@ class NameFixPass(ir.passes.InPlacePass):
         ):
             # Fix node name
             if not node.name:
-                if self._assign_node_name(node, scoped_used_node_names[-1], node_counter):
+                if self._assign_node_name(
+                    node, scoped_used_node_names[-1], node_counter, reserved_node_names
+                ):
                     modified = True
             else:
                 if self._fix_duplicate_node_name(
-                    node, scoped_used_node_names[-1], node_counter
+                    node, scoped_used_node_names[-1], node_counter, reserved_node_names
                 ):
                     modified = True
 
@@ -164,14 +202,22 @@ class NameFixPass(ir.passes.InPlacePass):
             for input_value in node.inputs:
                 if input_value is not None:
                     if self._process_value(
-                        input_value, scoped_used_value_names[-1], seen_values, value_counter
+                        input_value,
+                        scoped_used_value_names[-1],
+                        seen_values,
+                        value_counter,
+                        reserved_value_names,
                     ):
                         modified = True
 
             # Fix output value names (only if not already processed)
             for output_value in node.outputs:
                 if self._process_value(
-                    output_value, scoped_used_value_names[-1], seen_values, value_counter
+                    output_value,
+                    scoped_used_value_names[-1],
+                    seen_values,
+                    value_counter,
+                    reserved_value_names,
                 ):
                     modified = True
 
@@ -183,6 +229,7 @@ class NameFixPass(ir.passes.InPlacePass):
         used_value_names: set[str],
         seen_values: set[ir.Value],
         value_counter: collections.Counter[str],
+        reserved_names: AbstractSet[str] = frozenset(),
     ) -> bool:
         """Process a value only if it hasn't been processed before."""
         if value in seen_values:
@@ -191,9 +238,13 @@ class NameFixPass(ir.passes.InPlacePass):
         modified = False
 
         if not value.name:
-            modified = self._assign_value_name(value, used_value_names, value_counter)
+            modified = self._assign_value_name(
+                value, used_value_names, value_counter, reserved_names
+            )
         else:
-            modified = self._fix_duplicate_value_name(value, used_value_names, value_counter)
+            modified = self._fix_duplicate_value_name(
+                value, used_value_names, value_counter, reserved_names
+            )
             # initializers dictionary is updated automatically when the Value is renamed
 
         # Record the final name for this value
@@ -202,7 +253,11 @@ class NameFixPass(ir.passes.InPlacePass):
         return modified
 
     def _assign_value_name(
-        self, value: ir.Value, used_names: set[str], counter: collections.Counter[str]
+        self,
+        value: ir.Value,
+        used_names: set[str],
+        counter: collections.Counter[str],
+        reserved_names: AbstractSet[str] = frozenset(),
     ) -> bool:
         """Assign a name to an unnamed value. Returns True if modified."""
         assert not value.name, (
@@ -210,12 +265,18 @@ class NameFixPass(ir.passes.InPlacePass):
         )
 
         preferred_name = self._name_generator.generate_value_name(value)
-        value.name = _find_and_record_next_unique_name(preferred_name, used_names, counter)
+        value.name = _find_and_record_next_unique_name(
+            preferred_name, used_names, counter, reserved_names
+        )
         logger.debug("Assigned name %s to unnamed value", value.name)
         return True
 
     def _assign_node_name(
-        self, node: ir.Node, used_names: set[str], counter: collections.Counter[str]
+        self,
+        node: ir.Node,
+        used_names: set[str],
+        counter: collections.Counter[str],
+        reserved_names: AbstractSet[str] = frozenset(),
     ) -> bool:
         """Assign a name to an unnamed node. Returns True if modified."""
         assert not node.name, (
@@ -223,12 +284,18 @@ class NameFixPass(ir.passes.InPlacePass):
         )
 
         preferred_name = self._name_generator.generate_node_name(node)
-        node.name = _find_and_record_next_unique_name(preferred_name, used_names, counter)
+        node.name = _find_and_record_next_unique_name(
+            preferred_name, used_names, counter, reserved_names
+        )
         logger.debug("Assigned name %s to unnamed node", node.name)
         return True
 
     def _fix_duplicate_value_name(
-        self, value: ir.Value, used_names: set[str], counter: collections.Counter[str]
+        self,
+        value: ir.Value,
+        used_names: set[str],
+        counter: collections.Counter[str],
+        reserved_names: AbstractSet[str] = frozenset(),
     ) -> bool:
         """Fix a value's name if it conflicts with existing names. Returns True if modified."""
         original_name = value.name
@@ -244,12 +311,18 @@ class NameFixPass(ir.passes.InPlacePass):
 
         # If name is already used, make it unique
         base_name = self._name_generator.generate_value_name(value)
-        value.name = _find_and_record_next_unique_name(base_name, used_names, counter)
+        value.name = _find_and_record_next_unique_name(
+            base_name, used_names, counter, reserved_names
+        )
         logger.debug("Renamed value from %s to %s for uniqueness", original_name, value.name)
         return True
 
     def _fix_duplicate_node_name(
-        self, node: ir.Node, used_names: set[str], counter: collections.Counter[str]
+        self,
+        node: ir.Node,
+        used_names: set[str],
+        counter: collections.Counter[str],
+        reserved_names: AbstractSet[str] = frozenset(),
     ) -> bool:
         """Fix a node's name if it conflicts with existing names. Returns True if modified."""
         original_name = node.name
@@ -263,17 +336,25 @@ class NameFixPass(ir.passes.InPlacePass):
 
         # If name is already used, make it unique
         base_name = self._name_generator.generate_node_name(node)
-        node.name = _find_and_record_next_unique_name(base_name, used_names, counter)
+        node.name = _find_and_record_next_unique_name(
+            base_name, used_names, counter, reserved_names
+        )
         logger.debug("Renamed node from %s to %s for uniqueness", original_name, node.name)
         return True
 
 
 def _find_and_record_next_unique_name(
-    preferred_name: str, used_names: set[str], counter: collections.Counter[str]
+    preferred_name: str,
+    used_names: set[str],
+    counter: collections.Counter[str],
+    reserved_names: AbstractSet[str] = frozenset(),
 ) -> str:
-    """Generate a unique name based on the preferred name and current counter."""
+    """Generate a unique name based on the preferred name and current counter.
+
+    The generated name is neither in ``used_names`` nor in ``reserved_names``.
+    """
     new_name = preferred_name
-    while new_name in used_names:
+    while new_name in used_names or new_name in reserved_names:
         counter[preferred_name] += 1
         new_name = f"{preferred_name}_{counter[preferred_name]}"
     used_names.add(new_name)
